@@ -98,6 +98,7 @@ type Machine struct {
 	events  []string // harness-visible event log (verifLog)
 	divergences int
 	lastClock   *Sym
+	primLog     []primRec
 	frozen      map[*Value]frozenRef
 	frozenObj   map[interface{}]frozenRef
 	regionSeq   map[string]int
